@@ -6,10 +6,13 @@ CONSTANTS
   KeyU <- MC_KeyU
   PatU <- MC_PatU
   ParentU <- MC_ParentU
-  MaxVer = 2
+  Pats_ = {"a/?", "a/#", "#"}
+  Tids_ = {1}
+  Flags_ = {"ff", "tf", "ft", "tt"}
+  MaxVer = 1
   MaxAcq = 0
-  MaxSubs = 0
+  MaxSubs = 1
   NeedConnect = FALSE
 CONSTRAINT Bound
-INVARIANTS C01Inv C05Inv CleanTrees NeverDown EdgeInv
+INVARIANTS C01Inv C03Fold CleanTrees NeverDown EdgeInv
 CHECK_DEADLOCK FALSE
